@@ -4,7 +4,7 @@
 sid="$1"; cid="$2"; cmd="${3:-./cmd/vmc}"; tier="${4:-quick}"; note="$5"
 dst=/verif/seeded/$sid
 cd /verif
-res=$(scripts/mutate_overlay.sh $dst/patch.diff $cid $cmd $tier 2>&1 | tail -3)
+scripts/mutate_overlay.sh $dst/patch.diff $cid $cmd $tier > $dst/our_check_output.log 2>&1; res=$(tail -3 $dst/our_check_output.log)
 det=MISSED; echo "$res" | grep -q DETECTED && det=DETECTED
 python3 - "$dst" "$cid" "$det" "$tier" "$note" <<'PY'
 import json,sys
